@@ -9,6 +9,7 @@ import numpoly
 
 from ..baseclass import ndpoly, PolyLike
 from ..dispatch import implements
+from ..construct.from_attributes import COMPILED_DTYPES
 
 
 @implements(numpy.multiply)
@@ -78,32 +79,34 @@ def multiply(
         else out
     )
 
-    #    seen = set()
-    #    for expon1, coeff1 in zip(x1.exponents, x1.coefficients):
-    #        for expon2, coeff2 in zip(x2.exponents, x2.coefficients):
-    #            key = (expon1 + expon2 + x1.KEY_OFFSET).ravel()
-    #            key = key.view(f"U{len(expon1)}").item()
-    #            if key in seen:
-    #                out_.values[key] += numpy.multiply(
-    #                    coeff1, coeff2, where=where, **kwargs
-    #                )
-    #            else:
-    #                numpy.multiply(
-    #                    coeff1, coeff2, out=out_.values[key], where=where, **kwargs
-    #                )
-    #            seen.add(key)
-    #
-    #    if out is None:
-    #        out_ = numpoly.clean_attributes(out_)
-
-    numpoly.cmultiply(
-        x1.exponents,
-        x2.exponents,
-        x1.coefficients,
-        x2.coefficients,
-        x1.KEY_OFFSET,
-        out_.values.ravel(),
+    # The compiled kernel writes each exponent as one byte of a UTF-8 key
+    # and only handles a few coefficient dtypes of exactly the output dtype.
+    compiled = (
+        out_.dtype in COMPILED_DTYPES
+        and numpy.result_type(x1.dtype, x2.dtype) == out_.dtype
+        and int(numpy.max(x1.exponents)) + int(numpy.max(x2.exponents)) + x1.KEY_OFFSET
+        < 128
     )
+    if compiled:
+        numpoly.cmultiply(
+            x1.exponents,
+            x2.exponents,
+            x1.coefficients,
+            x2.coefficients,
+            x1.KEY_OFFSET,
+            out_.values.ravel(),
+        )
+    else:
+        seen = set()
+        for expon1, coeff1 in zip(x1.exponents, x1.coefficients):
+            for expon2, coeff2 in zip(x2.exponents, x2.coefficients):
+                key = (expon1 + expon2 + x1.KEY_OFFSET).ravel()
+                key = key.view(f"U{len(expon1)}").item()
+                if key in seen:
+                    out_.values[key] += numpy.multiply(coeff1, coeff2)
+                else:
+                    out_.values[key] = numpy.multiply(coeff1, coeff2)
+                seen.add(key)
     if out is None:
         out_ = numpoly.clean_attributes(out_)
 
